@@ -21,7 +21,10 @@ for pid in props:
         engine="lean-model+" + c.get("engine", "step-harness"),
         level_claimed=dict(category="proof", text=c["level_text"], design_ref=c.get("design_ref", "DESIGN.md section 8 " + pid)),
         level_note=c["level_note"],
-        technique=c.get("technique", "Lean 4 theorems over a hand-written executable model + differential correspondence check against the Go implementation"),
+        technique=c.get("technique", "Lean 4 theorems over a hand-written executable model + differential correspondence check against the Go implementation"
+                        + ("; fact theorems over program facts regenerated from the source on every run" if pid in propcfg.FACT_PROPS else "")
+                        + ("; equality theorems between the model and Lean definitions translated from the Go source on every run"
+                           if any("GenTie" in m for m in c["lean_modules"]) else "")),
     ))
 na = [dict(property_id=p, reason=propcfg.NOT_CLAIMED.get(p, "check not built yet (build round in progress)"))
       for p in props if p not in [c["property_id"] for c in checks]]
